@@ -25,7 +25,10 @@ def run(ctx):
   rule_trunc(ctx)
   rule_feed(ctx)
   rule_bytes(ctx)
-  ctx.expect("R-C09-HNP", 2, "identity + modulus agreement")
+  # the identity is stated modulo self.n: it is the nonce relation only if n is the (prime) order of the generator on every curve (shared with C11)
+  from . import c11
+  ctx.borrow(c11.rule_curves, "R-C09-HNP")
+  ctx.expect("R-C09-HNP", 2 + 9, "identity + modulus agreement + nine curve orders")
   ctx.expect("R-C09-TRUNC", 3, "condition + two pieces")
   ctx.expect("R-C09-FEED", 3, "r, s, z feeds")
   ctx.expect("R-C09-BYTES", 4, "four converters")
